@@ -438,6 +438,20 @@ func (w *World) selectOp(fr *frame, instr *ssa.Select) Value {
 				}
 			}
 			rs = ready()
+			// A sender that found this select parked has already completed its send (the value
+			// sits in the unbuffered channel's hand-over slot): in Go the parked goroutine is
+			// dequeued by that sender and its select is decided - it cannot take another case
+			// that became ready in the meantime.  (The order "other case first" is the schedule
+			// in which this thread runs before the sender; it is explored separately.)
+			var committed []int
+			for _, i := range rs {
+				if k := cases[i]; !k.send && k.c.cap == 0 && len(k.c.items()) > 0 {
+					committed = append(committed, i)
+				}
+			}
+			if len(committed) > 0 {
+				rs = committed
+			}
 		}
 	}
 	if len(rs) > 0 {
